@@ -30,6 +30,77 @@ def strLt : Str → Str → Bool
   | _ :: _, [] => false
   | a :: as, b :: bs => decide (a < b) || (a == b && strLt as bs)
 
+/-! ### calendar arithmetic of CPython's `datetime` (`_days_before_year`, `_days_before_month`, `_ymd2ord`) -/
+
+/-- `_days_before_year(year)`: days before January 1st of `year` (year 1 = 0) -/
+def daysBeforeYear (y : Nat) : Nat := (y - 1) * 365 + (y - 1) / 4 - (y - 1) / 100 + (y - 1) / 400
+
+/-- `_is_leap(year)` -/
+def isLeap (y : Nat) : Bool := y % 4 == 0 && (y % 100 != 0 || y % 400 == 0)
+
+/-- `_DAYS_BEFORE_MONTH[month]` -/
+def daysBeforeMonthTab : Nat → Nat
+  | 2 => 31 | 3 => 59 | 4 => 90 | 5 => 120 | 6 => 151 | 7 => 181
+  | 8 => 212 | 9 => 243 | 10 => 273 | 11 => 304 | 12 => 334 | _ => 0
+
+/-- `_days_before_month(year, month)` -/
+def daysBeforeMonth (y m : Nat) : Nat := daysBeforeMonthTab m + (if decide (2 < m) && isLeap y then 1 else 0)
+
+/-- `_ymd2ord(year, month, day)`: the proleptic Gregorian ordinal, 0001-01-01 = 1 -/
+def ymd2ord (y m d : Nat) : Nat := daysBeforeYear y + daysBeforeMonth y m + d
+
+/-- the fields of a well-typed `xsd:dateTime` lexical form without fractional seconds;
+    `tz` = UTC offset in minutes, `none` = no timezone (a naive `datetime`) -/
+structure DTF where
+  y : Nat
+  mo : Nat
+  d : Nat
+  h : Nat
+  mi : Nat
+  s : Nat
+  tz : Option Int
+  deriving DecidableEq, Repr
+
+/-- the fields of a well-typed `xsd:date` lexical form without timezone (a `datetime.date`) -/
+structure DF where
+  y : Nat
+  mo : Nat
+  d : Nat
+  deriving DecidableEq, Repr
+
+/-- `tzinfo is not None and utcoffset() is not None`: the first item of `_TOTAL_ORDER_CASTERS[datetime]` -/
+def DTF.aware (f : DTF) : Bool := f.tz.isSome
+
+/-- the point on the time line that CPython's `datetime` comparison works with, in seconds: what
+    `self - other` (ordinal days and seconds, minus the UTC offset) is computed from; for a naive value the local time -/
+def DTF.key (f : DTF) : Int :=
+  ((((ymd2ord f.y f.mo f.d : Nat) : Int) * 24 + f.h) * 60 + f.mi - f.tz.getD 0) * 60 + f.s
+
+/-- `date.toordinal()` -/
+def DF.ord (f : DF) : Nat := ymd2ord f.y f.mo f.d
+
+/-- `_days_in_month(year, month)` -/
+def daysInMonth (y m : Nat) : Nat :=
+  if m = 2 then (if isLeap y then 29 else 28) else if m = 4 ∨ m = 6 ∨ m = 9 ∨ m = 11 then 30 else 31
+
+/-- `_check_date_fields`: what `date(...)` / `fromisoformat` accept (year 1..9999 — the upper bound plays no role here) -/
+def validYMD (y m d : Nat) : Bool := decide (1 ≤ y ∧ 1 ≤ m ∧ m ≤ 12 ∧ 1 ≤ d ∧ d ≤ daysInMonth y m)
+
+def DF.valid (f : DF) : Bool := validYMD f.y f.mo f.d
+
+/-- `_check_date_fields` and `_check_time_fields` -/
+def DTF.valid (f : DTF) : Bool := validYMD f.y f.mo f.d && decide (f.h < 24 ∧ f.mi < 60 ∧ f.s < 60)
+
+/-- `date.__lt__`: Python tuple `<` on (year, month, day) -/
+def DF.fieldsLt (a b : DF) : Bool :=
+  decide (a.y < b.y ∨ (a.y = b.y ∧ (a.mo < b.mo ∨ (a.mo = b.mo ∧ a.d < b.d))))
+
+/-- the path of `datetime._cmp` for two values with the same UTC offset (or both without): Python tuple `<` on
+    (year, month, day, hour, minute, second); only values with different offsets are compared through `self - other` -/
+def DTF.fieldsLt (a b : DTF) : Bool :=
+  decide (a.y < b.y ∨ (a.y = b.y ∧ (a.mo < b.mo ∨ (a.mo = b.mo ∧ (a.d < b.d ∨ (a.d = b.d ∧
+    (a.h < b.h ∨ (a.h = b.h ∧ (a.mi < b.mi ∨ (a.mi = b.mi ∧ a.s < b.s))))))))))
+
 inductive Term
   | bnode (l : Str)
   | iri (s : Str)
@@ -38,6 +109,10 @@ inductive Term
   | bool (b : Bool)
   /-- plain literal, `lang = []` when there is no language tag -/
   | str (lex : Str) (lang : Str)
+  /-- well-typed xsd:dateTime (value: an aware or naive `datetime.datetime`) -/
+  | dateTime (f : DTF)
+  /-- well-typed xsd:date (value: a `datetime.date`) -/
+  | date (f : DF)
   deriving DecidableEq, Repr
 
 abbrev Val := Option Term
@@ -64,6 +139,8 @@ def valRank : Val → Nat
 def Term.dt : Term → DT
   | .num d _ _ => d
   | .bool _ => .boolean
+  | .dateTime _ => .dateTime
+  | .date _ => .date
   | _ => .string
 
 /-- `Literal.__gt__` on two literals -/
@@ -76,6 +153,9 @@ def litGt : Term → Term → Bool
         if g1 ≠ g2 then (if g1 = [] then false else if g2 = [] then true else strLt g2 g1)
         else strLt l2 l1
       | .bool x, .bool y => x && !y
+      -- `_TOTAL_ORDER_CASTERS[datetime]`: the tuples (aware?, value) are compared — naive before aware, then the values
+      | .dateTime f1, .dateTime f2 => if f1.aware ≠ f2.aware then f1.aware else decide (f2.key < f1.key)
+      | .date f1, .date f2 => decide (f2.ord < f1.ord)
       | _, _ => false
 
 /-- `Literal.eq` (value space) on two literals -/
@@ -83,6 +163,9 @@ def litEqv : Term → Term → Bool
   | .num _ v1 _, .num _ v2 _ => v1 == v2
   | .str l1 g1, .str l2 g2 => g1 == g2 && l1 == l2
   | .bool x, .bool y => x == y
+  -- `datetime.__eq__`: a naive and an aware value are never equal; two aware ones are equal as instants
+  | .dateTime f1, .dateTime f2 => f1.aware == f2.aware && f1.key == f2.key
+  | .date f1, .date f2 => f1.ord == f2.ord
   | _, _ => false
 
 /-- `Literal.__lt__` = `not __gt__ and not eq` -/
@@ -212,6 +295,8 @@ def Term.isLiteral : Term → Bool
   | .num .. => true
   | .bool _ => true
   | .str .. => true
+  | .dateTime _ => true
+  | .date _ => true
   | _ => false
 
 /-- `x.eq(y)` as RelationalExpression calls it: `Literal.eq` on two literals (value space),
@@ -261,12 +346,27 @@ def decLex (m : Int) (s : Nat) : Str :=
   let body := if s = 0 then ds else ds.take (ds.length - s) ++ [46] ++ ds.drop (ds.length - s)
   if m < 0 then 45 :: body else body
 
+def pad2 (n : Nat) : Str := padLeft 2 (digitsOf n)
+
+/-- `isoformat()` of the UTC offset: nothing, or sign hh:mm -/
+def tzLex : Option Int → Str
+  | none => []
+  | some off => (if off < 0 then 45 else 43) :: (pad2 (off.natAbs / 60) ++ [58] ++ pad2 (off.natAbs % 60))
+
+def DF.lex (f : DF) : Str := padLeft 4 (digitsOf f.y) ++ [45] ++ pad2 f.mo ++ [45] ++ pad2 f.d
+
+def DTF.lex (f : DTF) : Str :=
+  padLeft 4 (digitsOf f.y) ++ [45] ++ pad2 f.mo ++ [45] ++ pad2 f.d ++ [84] ++
+    pad2 f.h ++ [58] ++ pad2 f.mi ++ [58] ++ pad2 f.s ++ tzLex f.tz
+
 def lexOf : Term → Str
   | .bnode l => l
   | .iri s => s
   | .num _ v sc => decLex (v * ((pow10 sc : Nat) : Rat)).num sc
   | .bool b => if b then [116, 114, 117, 101] else [102, 97, 108, 115, 101]
   | .str l _ => l
+  | .dateTime f => f.lex
+  | .date f => f.lex
 
 def joinStr (sep : Str) : List Str → Str
   | [] => []
